@@ -146,8 +146,12 @@ Proof. exact legs_shared_across_tensors. Qed.
 
 (* ---- MPS level (Model/StoreMps.v: an MPS = list of tensor references into the heap + forms + norm + singular values;
    get_B / set_B / __init__ / measurement programs composed of the transformers of Model/Store.v, following
-   tenpy/networks/mps.py for trivial charge shift and label_p=None).  The StoreMps definitions are tied to the code
-   only through being built from the correspondence-checked transformers `exec` of Store.v; no checker replays them.
+   tenpy/networks/mps.py for trivial charge shift and label_p=None).  The StoreMps definitions are built from the
+   correspondence-checked transformers `exec` of Store.v and are themselves executed against the code: stream
+   `mps-history` of harness/c03.py with Model/StoreMpsCheck.v `check_mps_history` (random MPS-level histories:
+   constructor, get_B, set_B, measurements, in-place methods through returned tensors; observed changes of registers
+   and of the stored tensors must be allowed by the model, get_B raises / returns the stored object / shares memory
+   exactly as the model says).
    For every well-formed heap and MPS (any number of sites, any site index, any scale function sc):
    (1) get_B(i, form, copy), whenever it returns: heap well-formed, MPS well-formed, the MPS view (values of all site
        tensors, forms, norm, singular values) unchanged, EVERY pre-existing tensor reads the same, the result is live,
